@@ -189,13 +189,13 @@ REQ_D_SYM = [('caller-D-symmetric', "implies(not D_is_None, forall(lambda x, y: 
 REQ_ITR_INT = [('itr-nonneg', 'itr >= 0')]
 LS = _setup_R({'D': True, 'int_itr': True})
 
-CONTRACTS['latmio_und'] = Contract(MODULE, 'latmio_und', ['R', 'itr', 'D', 'seed'], setup=LS, requires=REQ_COMMON + REQ_SYM + REQ_ITR_INT + REQ_D_SYM,
+CONTRACTS['latmio_und'] = Contract(MODULE, 'latmio_und', ['R', 'itr', 'D', 'seed'], setup=LS, nonlinear='uf', requires=REQ_COMMON + REQ_SYM + REQ_ITR_INT + REQ_D_SYM,
                                    ensures=ENS_LATT_UND, loops=loops(INV_LATT_UND, 'for it in range(itr)'), abstract=ABS_D_UND, ghost_after=GHOST_LATT)
-CONTRACTS['latmio_dir'] = Contract(MODULE, 'latmio_dir', ['R', 'itr', 'D', 'seed'], setup=LS, requires=REQ_COMMON + REQ_ITR_INT,
+CONTRACTS['latmio_dir'] = Contract(MODULE, 'latmio_dir', ['R', 'itr', 'D', 'seed'], setup=LS, nonlinear='uf', requires=REQ_COMMON + REQ_ITR_INT,
                                    ensures=ENS_LATT_DIR, loops=loops(INV_LATT_DIR, 'for it in range(itr)'), abstract=ABS_D, ghost_after=GHOST_LATT)
-CONTRACTS['latmio_und_connected'] = Contract(MODULE, 'latmio_und_connected', ['R', 'itr', 'D', 'seed'], setup=LS, requires=REQ_COMMON + REQ_SYM + REQ_ITR_INT + REQ_D_SYM,
+CONTRACTS['latmio_und_connected'] = Contract(MODULE, 'latmio_und_connected', ['R', 'itr', 'D', 'seed'], setup=LS, nonlinear='uf', requires=REQ_COMMON + REQ_SYM + REQ_ITR_INT + REQ_D_SYM,
                                              ensures=ENS_LATT_UND, loops=loops(INV_LATT_UND, 'for it in range(itr)'), abstract=dict(ABS_D_UND, **ABS_CONN_UND), ghost_after=GHOST_LATT)
-CONTRACTS['latmio_dir_connected'] = Contract(MODULE, 'latmio_dir_connected', ['R', 'itr', 'D', 'seed'], setup=LS, requires=REQ_COMMON + REQ_ITR_INT,
+CONTRACTS['latmio_dir_connected'] = Contract(MODULE, 'latmio_dir_connected', ['R', 'itr', 'D', 'seed'], setup=LS, nonlinear='uf', requires=REQ_COMMON + REQ_ITR_INT,
                                              ensures=ENS_LATT_DIR, loops=loops(INV_LATT_DIR, 'for it in range(itr)'), abstract=dict(ABS_D, **ABS_CONN_DIR), ghost_after=GHOST_LATT)
 CONTRACTS['latmio_und_connected#reject'] = Contract(
     MODULE, 'latmio_und_connected', ['R', 'itr', 'D', 'seed'], setup=LS, key='latmio_und_connected#reject',
